@@ -131,6 +131,29 @@ impl FileUploadSession {
         }))
     }
 
+    /// Verification hook: same as `new`, but with the store client supplied by the caller.
+    #[cfg(xet_verif)]
+    pub async fn new_with_client(
+        config: Arc<TranslatorConfig>,
+        threadpool: Arc<ThreadPool>,
+        client: Arc<dyn Client + Send + Sync>,
+        upload_progress_updater: Option<Arc<dyn ProgressUpdater>>,
+    ) -> Result<Arc<FileUploadSession>> {
+        let shard_interface = SessionShardInterface::new(config.clone(), client.clone(), false).await?;
+
+        Ok(Arc::new(Self {
+            shard_interface,
+            client,
+            upload_progress_updater,
+            threadpool,
+            repo_id: None,
+            config,
+            current_session_data: Mutex::new(DataAggregator::default()),
+            deduplication_metrics: Mutex::new(DeduplicationMetrics::default()),
+            xorb_upload_tasks: Mutex::new(JoinSet::new()),
+        }))
+    }
+
     /// Start to clean one file. When cleaning multiple files, each file should
     /// be associated with one Cleaner. This allows to launch multiple clean task
     /// simultaneously.
